@@ -82,6 +82,13 @@ RxAllowed ==
                   IN RxObs(0, cls, 1, call, replies) : sv \in served}
               : cls \in Classes(o)}
 
+(* a cycle of a persistent session (several framed units in one stream, one instance): as rx, and the cycle must
+   have taken exactly the unit from the stream - the first observation is the number of octets consumed *)
+RxnOK == LET A == RxAllowed
+             rest == Tail(e.o)
+             balanced == rest[1] = 0 /\ rest[4] = rest[3] /\ rest[3] \in {0, 1} /\ rest[5] = 0 /\ rest[6] = 0 /\ rest[7] = 0
+         IN /\ e.o[1] = Len(WireIn)
+            /\ IF A = {<<-9>>} THEN balanced ELSE rest \in A
 RxOK == LET A == RxAllowed
             u == Unframe(RTr, WireIn)
            \* where the reply is not specified (marker -9) the run must still be resource-exact and touch no memory backend
@@ -96,6 +103,8 @@ TNext == /\ l <= Len(TraceLog) /\ l' = l + 1
               [] e.op = "sizeof" -> TRUE
               [] e.op = "emit" -> EmitOK /\ e.asan = 0
               [] e.op = "rx" -> RxOK /\ e.asan = 0
+              [] e.op = "rxn" -> RxnOK /\ e.asan = 0
+              [] e.op = "rxopen" -> TRUE
               [] OTHER -> FALSE
          /\ UNCHANGED <<vars, ev>>
 TSpec == TInit /\ [][TNext]_<<vars, ev, l>>
